@@ -54,6 +54,11 @@ def worlds():
         g = RDFWriter(docs, rdf_subclassing=False).convert_to_rdf()
         byid = {str(o.id): h for h, o in objs.items()}
         res.append((st, g, byid))
+    # world 3: the documents of world 1 exported by a writer whose sub-classing is switched off but which was given a
+    # custom sub-class table (the table may then have no effect: Sections stay odml:Section and are found as such)
+    st, g, byid = res[0]
+    g3 = RDFWriter(out[0], rdf_subclassing=False, custom_subclasses={"t": "TypeT", "u": "TypeU"}).convert_to_rdf()
+    res.append((st, g3, byid))
     _WORLDS = res
     return res
 
@@ -122,7 +127,9 @@ FINDERS = {}          # one finder per graph (a finder keeps the first graph it 
 def replay(q):
     qd = q_dict(q)            # one parameter dictionary used for the searches on both graphs, as a caller would
     for wi, (st, g, byid) in enumerate(worlds()):
-        for way in ("string", "string-rev", "dict"):
+        # "+value": the same query with a Property value list added (prop(.., value:[20, 25]) / ('value', ['20', '25'])): no
+        # Property of the worlds holds these values, so the combinations with a hit - and the answer - are those of the query itself
+        for way in ("string", "string-rev", "dict") + (("string+value", "dict+value") if q["mode"] == "match" and wi == 0 else ()):
             rec = {"fam": "query", "src": "model", "world": wi, "way": way, "mode": q["mode"], "w": st, "out": "ok", "exc": "none", "blocks": []}
             if q["mode"] == "match":
                 rec["pairs"] = q["pairs"]
@@ -133,7 +140,15 @@ def replay(q):
             try:
                 # the dictionary searches on one graph share one finder object (a caller keeps its finder), the string ones get a new one
                 ff = FINDERS.setdefault(wi, FuzzyFinder()) if way == "dict" else FuzzyFinder()
-                if way.startswith("string"):
+                if way == "string+value":
+                    qs = q_string(q)
+                    qs = qs.replace("prop(", "prop(value:[20, 25], ") if "prop(" in qs else qs + " prop(value:[20, 25])"
+                    text = ff.find(mode="match", graph=g, q_str=qs)
+                elif way == "dict+value":
+                    qv = {k: list(v) for k, v in q_dict(q).items()}
+                    qv.setdefault("Prop", []).append(("value", ["20", "25"]))
+                    text = ff.find(mode="match", graph=g, q_params=qv)
+                elif way.startswith("string"):
                     text = ff.find(mode=q["mode"], graph=g, q_str=q_string(q, rev=(way == "string-rev")))
                 else:
                     text = ff.find(mode=q["mode"], graph=g, q_params=qd)
